@@ -27,6 +27,8 @@ pub enum Hist {
     StreamInFlight,
     QueuedAtStop,
     Churn,
+    /// a connection whose handler panics (fault in interface code), then an ordinary one
+    HandlerPanic,
 }
 
 #[derive(Clone, Copy, Debug, PartialEq, Eq, Hash)]
@@ -259,6 +261,25 @@ fn run_scn(s: &Scn) -> Result<Obs, String> {
                 obs.closes.push(t0.elapsed().as_millis());
             }
         }
+        Hist::HandlerPanic => {
+            sleep_until(t0, 50);
+            if let Ok(mut c) = RawConn::connect(&address) {
+                obs.connects.push(t0.elapsed().as_millis());
+                let _ = c.write_all(b"{\"method\":\"org.verif.t.Panic\",\"parameters\":{\"token\":\"boom\"}}\0");
+                let (_out, eof) = c.read_to_eof(Duration::from_secs(10));
+                if !eof {
+                    obs.truncated.push("the connection whose handler panicked was not closed within 10 s".into());
+                }
+                drop(c);
+                obs.closes.push(t0.elapsed().as_millis());
+            }
+            // the server is still there for everybody else
+            one_echo(&address, "after-panic", t0, &mut obs, true);
+            if s.flag == FlagPlan::During {
+                sleep_until(t0, 400 + s.jitter);
+                set_flag(&server, &mut obs);
+            }
+        }
         Hist::Churn => {
             sleep_until(t0, 100);
             one_echo(&address, "pre", t0, &mut obs, true);
@@ -392,7 +413,7 @@ pub fn scenarios(tier: Tier, seed: u64) -> Vec<Scn> {
     for idle in [0u64, 1, 2] {
         for flag in [FlagPlan::NoFlag, FlagPlan::Before, FlagPlan::During, FlagPlan::Never] {
             for (pi, pool) in pools.iter().enumerate() {
-                for hist in [Hist::NoConn, Hist::LateArrival, Hist::LongLived, Hist::CloseAtDeadline, Hist::StreamInFlight, Hist::QueuedAtStop, Hist::Churn] {
+                for hist in [Hist::NoConn, Hist::LateArrival, Hist::LongLived, Hist::CloseAtDeadline, Hist::StreamInFlight, Hist::QueuedAtStop, Hist::Churn, Hist::HandlerPanic] {
                     // combinations that can never return or make no sense
                     if idle == 0 && matches!(flag, FlagPlan::NoFlag | FlagPlan::Never) {
                         continue;
@@ -530,7 +551,7 @@ fn shared_flag(ctx: &Ctx) {
 
 pub fn main(ctx: &Ctx) -> i32 {
     shared_flag(ctx);
-    ctx.set_rule("scenario matrix {idle_timeout 0,1,2 s} x {no flag, set before listen, set while connections are active, present but never set} x pools {(1,1),(1,4),(2,100)} x histories {none, arrival shortly before the deadline, long-lived across 2-3 deadlines, close within +-20 ms of the deadline, streaming reply in flight at flag/deadline, queued-but-accepted connection at stop, churn: a new connection every 20-60 ms for 6 s after the flag} x jitter seeds; plus one stop flag shared by three listen() calls and reused by a fourth started while it is still set; distinct = scenario incl. jitter; non-trivial = >=1 connection or an idle deadline that expired");
+    ctx.set_rule("scenario matrix {idle_timeout 0,1,2 s} x {no flag, set before listen, set while connections are active, present but never set} x pools {(1,1),(1,4),(2,100)} x histories {none, a connection whose handler panics followed by an ordinary one, arrival shortly before the deadline, long-lived across 2-3 deadlines, close within +-20 ms of the deadline, streaming reply in flight at flag/deadline, queued-but-accepted connection at stop, churn: a new connection every 20-60 ms for 6 s after the flag} x jitter seeds; plus one stop flag shared by three listen() calls and reused by a fourth started while it is still set; distinct = scenario incl. jitter; non-trivial = >=1 connection or an idle deadline that expired");
     ctx.assume("all timestamps come from one Instant clock in one process; connect() returning precedes the server's accept, so 'no Timeout earlier than T after the last connect' is a safe bound");
     ctx.assume("promptness is bounded: later of {flag set, last accepted connection drained} (+T for idle) + 100 ms quantum + 3 s slack; a late scenario is re-run alone 3 times and only a consistent lateness is a violation");
     let scns = scenarios(ctx.tier, ctx.seed);
